@@ -9,8 +9,8 @@ from .. import flow
 
 PID = "C17"
 LEVEL = "translation_validation"
-CONFIGS_QUICK = ["corpus", "pmcore"]
-CONFIGS_THOROUGH = ["corpus", "pmcore", "repo-programs"]
+CONFIGS_QUICK = ["corpus", "pmcore", "libs-all"]
+CONFIGS_THOROUGH = ["corpus", "pmcore", "repo-programs", "libs-all"]
 EXPLANATION = (
     "Translation validation of the #[rpc] macro over a corpus: the macro's output is analysed after expansion, as MIR of "
     "the expanding crates (never executed). Corpus = a generated family (/verif/corpus/gen.py: 6 traits x 8 declarations "
@@ -147,8 +147,58 @@ def _expected_name(t, rpc):
     return rpc
 
 
+def w6_runtime_key_encoding(ctx):
+    """by-name stubs hand the declared wire name (any string a `rename` may contain) to ObjectParams::insert at run time:
+    the only way that name may reach the buffer is serde_json's string serialiser, so that the key the server's field
+    visitor compares is the declared one whatever characters it contains"""
+    from .common import forward_taint
+    F, R = ctx.F, ctx.R
+    tr = ctx.tracer(follow_callers=False, follow_fields=False)
+    b = F.one(r"^jsonrpsee_core::params::params_builder::ParamsBuilder::insert_named$")
+    bodies = F.nested(b)
+    for x in bodies:
+        R.fn(x)
+    ser = []
+    raw = []
+
+    def scan(x, seeds, depth):
+        tainted = forward_taint(x, seeds) if seeds else set()
+        for c in x.calls:
+            nm = c.name() or ""
+            if not c.args:
+                continue
+            hit = [i for i, a in enumerate(c.args) if op_place(a) is not None and op_place(a)["l"] in tainted]
+            if not hit:
+                continue
+            if re.search(r"^serde_json::(ser::)?to_writer$", nm):
+                ser.append(c)
+            elif re.search(r"Vec::<.*>::(extend_from_slice|push|extend|append|insert)$|String::(push_str|push)$|Write>?::(write|write_all|write_str|write_fmt)$|fmt::format$", nm):
+                raw.append((x, c))
+            else:
+                tgt = F.bodies.get(nm)
+                if tgt is not None and tgt.crate == b.crate and depth < 2 and tgt.path != x.path:
+                    R.fn(tgt)
+                    scan(tgt, {i + 1 for i in hit}, depth + 1)
+
+    for x in bodies:
+        seeds = {2} if x.path == b.path else set()
+        if x.path != b.path:
+            # closures capturing the name: any upvar of type &str
+            for l, d in enumerate(x.locals):
+                if d["ty"] in ("&str", "&&str") and l != 0:
+                    seeds.add(l)
+        scan(x, seeds, 0)
+    R.check(bool(ser), "C17.W6", "insert_named:name-through-serde_json", "the parameter name is written with serde_json::to_writer", "ObjectParams::insert no longer writes the name with serde_json::to_writer", "%s:%d" % (b.file, b.lo))
+    for x, c in raw:
+        R.bad("C17.W6", "insert_named:raw-name-write:%s" % (c.name() or "").split("::")[-1], "ParamsBuilder::insert_named copies the parameter name into the buffer without JSON escaping (%s): a wire name from #[argument(rename = ..)] that contains `\\`, `\"` or a control character is sent as a different key (or as invalid JSON), so the server's by-name decoding rejects the call" % short(c.name() or ""), where(c))
+    if not raw:
+        R.ok("C17.W6", "insert_named:no-raw-name-write", "no unescaped copy of the name into the buffer")
+
+
 def w_rules(ctx):
     F, R = ctx.F, ctx.R
+    if ctx.config == "libs-all":
+        return w6_runtime_key_encoding(ctx)
     tr = ctx.tracer(follow_callers=False, follow_fields=False)
     traits = collect(F, tr)
     spec = {}
